@@ -130,7 +130,7 @@ CHECKS = {
         "unit": "generated command rounds + differential histories + hostile-frame histories",
         "aux": "miri_status",
         "required_events": ["differential_history", "hostile_history", "hostile_frame_error_reply", "hostile_connection_closed", "hostile_member_connection_cleaned_up"],
-        "min_events": {"quick": {"differential_history": 8, "hostile_history": 8}, "thorough": {"differential_history": 150, "hostile_history": 150}},
+        "min_events": {"quick": {"differential_history": 8, "hostile_history": 8}, "thorough": {"differential_history": 60, "hostile_history": 60}},
         "rule": ("(a) Generated rounds: one structure-aware value of each of the 45 SDK commands (numeric/named identifiers of length 1,2,3,..,255, every partitioning kind, polling strategy, "
                  "header value kind, optional fields present/absent, nested permission tables, boundary numbers) is encoded with the SDK's to_bytes, framed, decoded by the server's "
                  "ServerCommand::from_bytes (hook H6) under catch_unwind, compared for equality with the original and validated on both sides; the same values go through the journal "
